@@ -15,5 +15,6 @@ for f in harness/src/bin/*.rs harness/src/bin/*/main.rs; do
   b=$(basename "$f" .rs); [ "$b" = "main" ] && b=$(basename "$(dirname "$f")")
   (cd harness && RUSTFLAGS="--cfg rsdd_verif" timeout 3000 cargo build --release --offline --bin "$b" >> ../.build_cargo.log 2>&1) || echo "setup: harness binary $b did not build (see .build_cargo.log)"
 done
+(cd /repo && CARGO_TARGET_DIR=/verif/.build/cli_target timeout 3000 cargo build --offline --features cli --bins >> /verif/.build_cargo.log 2>&1) || echo "setup: the CLI binaries did not build"
 python3 tools/build_drivers.py || echo "setup: some model drivers did not build"
 echo "setup ok"
